@@ -30,7 +30,7 @@ STUBS = [SP.STUBS[1] + "; create_dataset(name, data) stores a copy of the array 
          "(harness/_build.mk_core); parameter values are plain numbers"]
 
 CASE = "symxiso"
-OPS = ("write", "writeLabelled", "moveOn", "assignNew", "assignStored")
+OPS = ("write", "writeLabelled", "moveOn", "assignNew", "assignStored", "moveBack")
 
 
 def _val(v):
@@ -109,6 +109,8 @@ def snapshots_keep_the_state_of_their_own_write(ctx, L):
     given = {("Core", "keff"): False, ("HexBlock", "percentBu"): False, ("HexBlock", "height"): True,
              ("HexAssembly", "chargeTime"): True, ("Reactor", "time"): True}
     atWrite = {}          # group name -> fingerprint right after its own write
+    valuesAt = {}         # (cycle, node, label) -> [(object, parameter, value at the moment of that write)]
+    tracked = [(b, "height") for b in blocks] + [(a, "chargeTime") for a in assems]
     order = []
 
     def write(label, pretendNew=False):
@@ -127,6 +129,7 @@ def snapshots_keep_the_state_of_their_own_write(ctx, L):
         g = db.h5db[name]
         atWrite[name] = _finger(g)
         order.append((r.p.cycle, r.p.timeNode, label))
+        valuesAt[r.p.cycle, r.p.timeNode, label] = [(o, pn, o.p[pn]) for o, pn in tracked]
         for (typeName, param), objs in watched.items():
             got = _stored(g, typeName, param)
             if given[typeName, param]:
@@ -152,6 +155,11 @@ def snapshots_keep_the_state_of_their_own_write(ctx, L):
         elif op == "moveOn":
             r.p.timeNode += 1
             r.p.time = r.p.time + 0.5
+        elif op == "moveBack":
+            # back to the previous node (writes out of chronological order; a reactor sitting at an earlier step)
+            if r.p.timeNode > 0:
+                r.p.timeNode -= 1
+                r.p.time = r.p.time - 0.5
         elif op == "assignNew":
             core.p.keff = nxt()
             for b in blocks:
@@ -170,3 +178,27 @@ def snapshots_keep_the_state_of_their_own_write(ctx, L):
                   listed == sorted((c, n) for c, n, _ in order))
         for name, fp in atWrite.items():
             ctx.check("the closed file still holds every snapshot as written", _finger(db2.h5db[name]) == fp)
+        # history clause on the file this interleaving produced (the live reactor is wherever the sequence left it,
+        # in a state no snapshot holds): for each step the value the object had when that step was written
+        now = (r.p.cycle, r.p.timeNode)
+        for b in blocks:            # ... and the state moves on once more after the last write
+            b.p.height = b.p.height + nxt()
+        for a in assems:
+            a.p.chargeTime = nxt()
+        hist = {}
+        hist.update(db2.getHistories(blocks, ["height"]))
+        hist.update(db2.getHistories(assems, ["chargeTime"]))
+        plainSteps = sorted((c, n) for (c, n, lab) in valuesAt if lab is None)
+        allSteps = sorted(set((c, n) for (c, n, lab) in valuesAt))
+        for o, pn in tracked:
+            h = hist[o][pn]
+            ctx.check("history of %s: one entry per step holding a snapshot, plus the current step" % pn,
+                      sorted(h.keys()) == sorted(set(allSteps + [now])))
+            for (c, n) in plainSteps:
+                if (c, n, "EOL") in valuesAt:
+                    continue        # two snapshots of the same (cycle, node): which one a history means is not stated
+                want = [v for (o2, p2, v) in valuesAt[c, n, None] if o2 is o and p2 == pn][0]
+                ctx.check("history of %s at a written step: the value the object had at that write, whatever the "
+                          "order of the writes and whatever the reactor holds now" % pn, h.get((c, n)) == want)
+            if now not in allSteps:
+                ctx.check("history of %s at the current, unwritten step: the live value" % pn, h.get(now) == o.p[pn])
